@@ -109,6 +109,10 @@ func (e routeEngine) Corpus() []Case {
 				q(g, "/users"), q(g, "/users/"), q(g, "/about"), q(g, "/about/"), sv(g, "/users/"), sv(g, "/about/")}, Tag: "corpus-optional-slash"},
 			{Ops: []string{"new 0 0 -", regOp(1, nil, "/users[/]", false), regOp(2, nil, "/{name}", false), regOp(3, nil, "/about[/]", false), regOp(4, nil, "/about", false),
 				q(g, "/users"), q(g, "/about"), q(g, "/zzz"), sv(g, "/users"), sv(g, "/about")}, Tag: "corpus-optional-slash"},
+			// routes of the same shape (the same path once the inline regexes are taken out) whose variables have different regexes
+			{Ops: []string{"new 0 0 -", regOp(1, nil, "/item/{id:\\d+}", false), regOp(2, nil, "/item/{id:[a-z]+}", false), regOp(3, []string{p}, "/{y:\\d{4}}.html", false), regOp(4, []string{p}, "/{y:[a-z]+}.html", false),
+				regOp(5, []string{"PUT"}, "/item/{id:[A-Z]+}", false),
+				q(g, "/item/12"), q(g, "/item/abc"), q(g, "/item/ABC"), q(p, "/2024.html"), q(p, "/news.html"), q("PUT", "/item/ABC"), q("PUT", "/item/12"), sv(g, "/item/abc")}, Tag: "corpus-same-shape"},
 			// F3: white-space only paths; request method strings of all kinds
 			{Ops: []string{"new 4 0 -", regOp(1, nil, "/", false), q(g, "  "), q(g, ""), q("", "/"), q("get", "/"), q("GE", "/"), sv(" ", "\t")}},
 		}, raCorpus("route")...)
@@ -195,7 +199,7 @@ type varKind struct {
 }
 
 var varKinds = []varKind{
-	{"%s", []string{"1", "ab", "x.y", "a-b", "é", "12", "A_b", "%20", "a b", "a?b", "?", "what?", "a#b", ".", "..", "...", ".a", "0.00001"}, []string{""}},
+	{"%s", []string{"1", "ab", "x.y", "a-b", "é", "12", "A_b", "%20", "a b", "a?b", "?", "what?", "a#b", ".", "..", "...", ".a", "0.00001", "dé\u00e0", "\u4f60", "\u041f\u0443\u0445"}, []string{""}},
 	{"%s:\\d+", []string{"1", "007", "42", "1000000000000000000000"}, []string{"", "a", "1a", "-1"}},
 	{"%s:[1-9][0-9]*", []string{"1", "10", "999"}, []string{"0", "01", "a"}},
 	{"%s:[a-z-]+", []string{"a", "a-b", "zz"}, []string{"A", "a1", ""}},
@@ -927,6 +931,21 @@ func (e routeEngine) Run(ops []string) (ans []string, oracle []string) {
 			nilMain := im.raNil
 			if strings.HasPrefix(a, "panic") {
 				oracle = append(oracle, fmt.Sprintf("C13 lookup panicked (%s) on an accepted table: %s", a, op))
+			}
+			// the public Match is QuickMatch on the upper-cased method: the same route, whatever the method string is
+			// (only on routers without cache: a second lookup would touch the LRU list the model tracks)
+			if f[0] == "q" && !im.caching && !strings.HasPrefix(a, "panic") {
+				mm := guarded(func() string {
+					r1, _, _ := im.r.Match(m, p)
+					r2, _, _ := im.r.QuickMatch(strings.ToUpper(m), p)
+					if r1 != r2 {
+						return "another route"
+					}
+					return ""
+				})
+				if mm != "" {
+					oracle = append(oracle, fmt.Sprintf("C13 Match(%q, %q) against QuickMatch of the upper-cased method: %s", m, p, mm))
+				}
 			}
 			// the same request reached through a re-dispatch (a middleware rewrites the URL of an earlier request and calls
 			// HandleContext): the context is reset, so the answer is the answer to the direct request
